@@ -143,6 +143,7 @@ pub fn get(prop: &str, tier: &str) -> Option<Check> {
                 Batch { name: "server_sessions", f: scen::sessions::run_sessions, cfg: cfg(Mode::LockStep, false, 0), runs: n(100_000, 3_000_000), real: REAL_SERVER_TCP, stub: STUB_SERVER_TCP },
                 Batch { name: "tls_handshake_stall_server", f: scen::tls::run_handshake_stall, cfg: cfg(Mode::Racy, true, 1), runs: n(600, 20_000), real: REAL_TLS, stub: STUB_TLS },
                 Batch { name: "server_tcp_racy", f: scen::server_tcp::run_racy, cfg: cfg(Mode::Racy, true, 0), runs: n(30_000, 1_000_000), real: REAL_SERVER_TCP, stub: STUB_SERVER_TCP },
+                Batch { name: "tls_server_sessions", f: scen::tls::run_tls_sessions, cfg: cfg(Mode::LockStep, false, 0), runs: n(3_000, 100_000), real: REAL_TLS, stub: STUB_TLS },
             ],
             assumptions: vec!["TLS servers share the session tracker; the TLS handshake phase is judged under C07/C09"],
         },
